@@ -379,6 +379,8 @@ class World(object):
             'call_arg': NativeFunc('call_arg', _call_arg),
             'ideal': NativeFunc('ideal', _ideal),
             'call_ret': NativeFunc('call_ret', _call_ret),
+            'was_called': NativeFunc('was_called', lambda ex, a, k: a[0] in ex.ghost.get('call_args', {})),
+            'entries_none_from': NativeFunc('entries_none_from', _entries_none_from),
         })
         return mods
 
@@ -511,6 +513,21 @@ def _ideal(ex, a, k):
     memo.append((args, res))
     ex.nondet.append(('bytes', N.snapshot(res)))
     return res
+
+
+def _entries_none_from(ex, a, k):
+    """entries lo.. of a table are None (lo may be symbolic: decided per value)"""
+    lst, lo = a[0], a[1]
+    items = lst.items
+    if isinstance(lo, int):
+        for i in range(max(lo, 0), len(items)):
+            if force(ex, items[i]) is not None:
+                return False
+        return True
+    for c in range(0, len(items) + 1):
+        if ex.branch(mk_bool(zint(lo) == c)):
+            return _entries_none_from(ex, [lst, c], k)
+    return True
 
 
 def _call_ret(ex, a, k):
